@@ -243,23 +243,10 @@ pub fn flush_has_work(connections: &[SrtlaConnection], now: u64) -> (r: bool)
                     assert(connections[i].latch_wf() && q_ok(connections[i].quality_cache.multiplier));
                 }
             }''', 'after'),
-                   ('if let Some(sel_idx) = sel_idx {\n                forward_via_connection(\n                    sel_idx,\n                    pkt,\n                    seq,\n                    connections,\n                    conn_io,\n                    last_selected_idx,\n                    seq_tracker,\n                    packet_time_ms,\n                );\n                if seq.is_some() {',
-                    '''if let Some(sel_idx) = sel_idx {
-                proof {
+                   ('if let Some(sel_idx) = sel_idx {', '''proof {
                     assert(sel_idx < connections.len());
                     assert(connections[sel_idx as int].eligible(packet_time_ms));  // @ob C04.route.handle_srt_packet.every_routed_copy_goes_to_an_eligible_uplink
                     assert(config_snap.mode is Classic ==> Some(sel_idx) == sched_choice);  // @ob C10.route.handle_srt_packet.classic_mode_routes_every_packet_kind_by_the_reference_choice
-                }
-                forward_via_connection(
-                    sel_idx,
-                    pkt,
-                    seq,
-                    connections,
-                    conn_io,
-                    last_selected_idx,
-                    seq_tracker,
-                    packet_time_ms,
-                );
-                if seq.is_some() {''', 'replace'),
+                }''', 'after', 'last'),     # the LAST occurrence: the registered-session path (the first one is pre-registration forwarding)
                ]))
     return u
